@@ -37,6 +37,14 @@ CLAIMED = {
              'are monitored on every explored history.',
         note=CONC_NOTE + ' Liveness ("they do return") rests on C03.',
         technique='Coq inductive invariant over a per-job transition system + lock-step trace validation', ref='5 C05'),
+    'C08': dict(
+        text='Machine-checked, for every batch size >= 0 and every interleaving of finishing items: the stream is closed at most once, '
+             'the closer always finds it open, an unfinished item always finds it open (no send on closed), the wait group never goes '
+             'negative, NumPending = items not yet done, batch Wait is enabled exactly at 0, and at rest a completed batch is closed. '
+             'Lock-step replay of per-batch and per-item projections ties the models to the code; stream contents (one result per '
+             'executed item, tagged, then close), empty batches, rejected / purged items are monitored on every explored history.',
+        note=CONC_NOTE.replace('coq/SliceJob.v', 'coq/SliceBatch.v and coq/SliceJob.v'),
+        technique='Coq inductive invariant over the batch counter/stream transition system + lock-step trace validation', ref='5 C08'),
     'C10': dict(
         text='Machine-checked: a Close that returns nil before the start makes the job cancelled for good (never executed afterwards); '
              'at most one Close returns nil, the job is closed by exactly one compare-and-swap claim, its waiters are released at '
